@@ -35,6 +35,7 @@ pub fn fnv(bits: &[u64]) -> u64 {
 pub struct Out {
     pub shape: Vec<usize>,
     pub bits: Vec<u64>,
+    pub is32: bool,
 }
 impl Out {
     pub fn json(&self, full: bool) -> Value {
@@ -48,19 +49,19 @@ impl Out {
 }
 
 pub fn arr_f64(a: &Array3<f64>) -> Out {
-    Out { shape: a.shape().to_vec(), bits: a.iter().map(|x| x.to_bits()).collect() }
+    Out { shape: a.shape().to_vec(), bits: a.iter().map(|x| x.to_bits()).collect(), is32: false }
 }
 pub fn arr_f32(a: &Array3<f32>) -> Out {
-    Out { shape: a.shape().to_vec(), bits: a.iter().map(|x| x.to_bits() as u64).collect() }
+    Out { shape: a.shape().to_vec(), bits: a.iter().map(|x| x.to_bits() as u64).collect(), is32: true }
 }
 pub fn tensor_out<B: Backend>(t: &Tensor<B, 3>) -> Out {
     let d = t.to_data();
-    let bits: Vec<u64> = match d.dtype {
-        burn::tensor::DType::F64 => d.as_slice::<f64>().unwrap().iter().map(|x| x.to_bits()).collect(),
-        burn::tensor::DType::F32 => d.as_slice::<f32>().unwrap().iter().map(|x| x.to_bits() as u64).collect(),
+    let (bits, is32): (Vec<u64>, bool) = match d.dtype {
+        burn::tensor::DType::F64 => (d.as_slice::<f64>().unwrap().iter().map(|x| x.to_bits()).collect(), false),
+        burn::tensor::DType::F32 => (d.as_slice::<f32>().unwrap().iter().map(|x| x.to_bits() as u64).collect(), true),
         other => panic!("unexpected dtype {other:?}"),
     };
-    Out { shape: t.dims().to_vec(), bits }
+    Out { shape: t.dims().to_vec(), bits, is32 }
 }
 
 /// A conditional that is deterministic given its own state (carries a seeded generator).
@@ -243,6 +244,47 @@ pub fn run_spec(c: &Value) -> Out {
             let mut s = build_nuts::<f32, B64>(c);
             tensor_out(&if progress { s.run_progress(n, d).unwrap().0 } else { s.run(n, d) })
         }
+        (k, f) => panic!("unknown sampler {k}/{f}"),
+    }
+}
+
+
+fn bs(x: &mini_mcmc::stats::BasicStats) -> Vec<u64> {
+    vec![b32(x.min), b32(x.median), b32(x.max), b32(x.mean), b32(x.std)]
+}
+fn stats_json(s: &mini_mcmc::stats::RunStats) -> Value {
+    json!({"ess": bs(&s.ess), "rhat": bs(&s.rhat)})
+}
+
+/// run_progress of the sampler named by the spec: (draws, RunStats as json)
+pub fn run_spec_stats(c: &Value) -> (Out, Value) {
+    let (n, d) = (us(c, "n"), us(c, "d"));
+    macro_rules! go_arr {
+        ($s:expr, $conv:ident) => {{
+            let mut s = $s;
+            let (a, st) = s.run_progress(n, d).unwrap();
+            ($conv(&a), stats_json(&st))
+        }};
+    }
+    macro_rules! go_t {
+        ($s:expr) => {{
+            let mut s = $s;
+            let (a, st) = s.run_progress(n, d).unwrap();
+            (tensor_out(&a), stats_json(&st))
+        }};
+    }
+    match (strf(c, "kind"), strf(c, "f")) {
+        ("mh", "f64") => go_arr!(build_mh64(c), arr_f64),
+        ("mh", "f32") => go_arr!(build_mh32(c), arr_f32),
+        ("gibbs", _) => go_arr!(build_gibbs(c), arr_f64),
+        ("hmc", "f32") => go_t!(build_hmc::<f32, B32>(c)),
+        ("hmc", "f64") => go_t!(build_hmc::<f64, B64>(c)),
+        ("hmc", "f64b32") => go_t!(build_hmc::<f64, B32>(c)),
+        ("hmc", "f32b64") => go_t!(build_hmc::<f32, B64>(c)),
+        ("nuts", "f32") => go_t!(build_nuts::<f32, B32>(c)),
+        ("nuts", "f64") => go_t!(build_nuts::<f64, B64>(c)),
+        ("nuts", "f64b32") => go_t!(build_nuts::<f64, B32>(c)),
+        ("nuts", "f32b64") => go_t!(build_nuts::<f32, B64>(c)),
         (k, f) => panic!("unknown sampler {k}/{f}"),
     }
 }
